@@ -29,6 +29,8 @@ SPEC = {
 }
 SPEC['explanation'] += ' T3.items: the items iterator returned by enter() is traversed at most once per pass (it may be one-shot). T9.wholepath: get_path walks the path as given (re-bound only to its split form, loop over the whole path).'
 SPEC['decided'] += ['enter() items traversed once', 'whole path walked']
+SPEC['explanation'] += ' T26: get_path takes no presence decision on a None-defaulted .get().'
+SPEC['decided'] += ['no None-presence decision in get_path']
 MANIFEST = {
     'technique': 'role-typed effect analysis (who is mutated), freshness of returned parents, must-pass-through registry updates on CFG paths',
     'text': ('Decides three necessary structural clauses of C08: remap and its defaults never write to the input, rebuilt containers '
